@@ -278,6 +278,11 @@ def run_lines(binary, args, lines, timeout=600, shards=16, env=None):
 
 # ---------------------------------------------------------------- known findings
 def load_known(prop):
+    """Known findings of a property: known/<prop>.json (committed; assembled into
+    known_findings.json by tools/gen_manifest.py). Never written at run time."""
+    p = os.path.join(VERIF, "known", f"{prop}.json")
+    if os.path.exists(p):
+        return [k for k in json.load(open(p)) if k.get("property") == prop]
     p = os.path.join(VERIF, "known_findings.json")
     if not os.path.exists(p):
         return []
